@@ -1,5 +1,6 @@
 import TunnelModel.LFrame.Server
 import Proofs.Lemmas.ServerShape
+import Proofs.Lemmas.ClientShape
 /-!
   C16 — unary and single-message call shapes are enforced on both ends
   (server side here; the caller's side is in `Proofs/Props/C16Client.lean`).
@@ -60,6 +61,41 @@ theorem C16_second_request_fails (sid : Sid) (fuel : Nat) (s : SStream α) (p : 
     (s.resumeRead sid "" (fuel + 1)).1.closed = true ∧ (s.resumeRead sid "" (fuel + 1)).1.inTable = false :=
   let h := Proofs.ServerShape.C16_second_request_fails sid fuel s p m m2 w q cs' hp hl hr
   ⟨h.2.1, h.2.2.2.2.1, h.2.2.2.2.2.1⟩
+
+/-! ### caller side -/
+
+/-- **At most one response is ever delivered** to the caller of a method with a
+    non-streaming response, over every sequence of stream-level operations
+    (frames of any kind from any peer, caller calls, context ends), from any
+    state. -/
+theorem C16_client_at_most_one (cfg : CCfg) (sid : Sid) (s0 : CStream α) (h0 : s0.ss = false)
+    (ops : List (Proofs.ClientShape.COp α)) : (Proofs.ClientShape.runOps cfg sid s0 ops).2 ≤ 1 :=
+  Proofs.ClientShape.C16_client_at_most_one cfg sid s0 h0 ops
+
+/-- **Several responses never yield success**: when the look-ahead finds a
+    second response, `RecvMsg` returns Internal, delivers nothing, and (if the
+    RPC was still live) the terminal result becomes that Internal error and a
+    cancel frame is sent. -/
+theorem C16_second_response_fails (sid : Sid) (fuel : Nat) (s : CStream α) (p : PRead α) (m m2 : List α)
+    (w : Nat) (q : List (DFrame α)) (cs' : List Nat)
+    (hp : s.pread = some p) (hl : p.lookahead = some m)
+    (hr : readLoop s.rcv.rwin s.rcv.queue p.rst = (w, q, cs', some (.msg m2))) :
+    let a := CStream.afterRead sid (s.resumeRead sid (fuel + 1))
+    Proofs.ClientShape.delivered a.2 = 0 ∧
+    (∃ rest, a.2.dones = (sid, "recv", .status codeInternal) :: rest) ∧
+    (s.done = none → a.1.done = some (.status (mkStatus codeInternal "Server sent multiple responses for non-server-stream method"))
+      ∧ (sid, C2S.cancel) ∈ a.2.frames) := by
+  have h := Proofs.ClientShape.C16_second_response_fails sid fuel s p m m2 w q cs' hp hl hr
+  refine ⟨h.2.1.2.2.1, h.2.1.2.2.2, fun hd => ?_⟩
+  have h3 := h.2.2.1 hd
+  exact ⟨h3.1, by rw [h3.2.1]; simp⟩
+
+/-- **A second send on a non-streaming request side is refused** with Internal
+    and puts nothing on the wire. -/
+theorem C16_client_second_send_refused (cfg : CCfg) (sid : Sid) (s : CStream α) (m : List α)
+    (hcs : s.cs = false) (hn : s.numSent = 1) :
+    s.onCall cfg sid (.send m) = (s, { dones := [(sid, "send", .status codeInternal)] }) := by
+  simp [CStream.onCall, hcs, hn]
 
 -- non-vacuity: server-stream method, second message after the first completes the look-ahead with an error
 example :
